@@ -367,6 +367,9 @@ func runC02(c *Ctx) {
 		checkMapOrder(c, p, mfn, mex.Explored())
 	}
 	checkUnconditionalAdd(c, p)
+	// shared with C04: "Confidence is 1.0 only if R and K are word-for-word identical" needs every word to keep its own
+	// rune through the diff library (R04.6 / R04.10)
+	checkTokenIDUses(c, p)
 	// shared with C06: the line of a word that is assembled across a buffer refill (R06.3)
 	checkFlagsSurviveRefill(c, p)
 	sc := p.Func(v2pkg, "(*Classifier).score")
